@@ -41,14 +41,16 @@ package output
 //@   pure
 //@   ensures [named] err == nil ==> defs == storedDefsOf(outputs) && len(defs) >= 0
 
-//@ func validateTargetResultOutputs(target, targetResult) (err)
+//@ func validateTargetResultOutputs(target, targetResult) (verr)
 //@   pure
-//@   ensures [nil_result_rejected] targetResult == nil ==> err != nil
-//@   ensures [same_definitions] err == nil ==> loadedOutputDefinitions == storedDefsOf(targetResult.Outputs) && len(expectedOutputDefinitions) == len(loadedOutputDefinitions) &&
+//@   ensures [nil_result_rejected] targetResult == nil ==> verr != nil
+//@   ensures [same_definitions] verr == nil ==> loadedOutputDefinitions == storedDefsOf(targetResult.Outputs) && len(expectedOutputDefinitions) == len(loadedOutputDefinitions) &&
 //@        (forall i int :: {sortedOf(expectedOutputDefinitions)[i]} 0 <= i && i < len(expectedOutputDefinitions) ==> sortedOf(expectedOutputDefinitions)[i] == sortedOf(loadedOutputDefinitions)[i])
-//@   ensures [stored_definitions_match_declared] err == nil ==> len(sortseq(outDefBag(target.Outputs, target.BinOutput))) == len(sortseq(bagOf(storedDefsOf(targetResult.Outputs)))) &&
+//@   ensures [stored_definitions_match_declared] verr == nil ==> len(sortseq(outDefBag(target.Outputs, target.BinOutput))) == len(sortseq(bagOf(storedDefsOf(targetResult.Outputs)))) &&
 //@        (forall i int :: {sortseq(outDefBag(target.Outputs, target.BinOutput))[i]} 0 <= i && i < len(sortseq(outDefBag(target.Outputs, target.BinOutput))) ==>
 //@          sortseq(outDefBag(target.Outputs, target.BinOutput))[i] == sortseq(bagOf(storedDefsOf(targetResult.Outputs)))[i])
+//@   ensures [rearranged_records_accepted] targetResult != nil && err == nil && len(expectedOutputDefinitions) == len(loadedOutputDefinitions) &&
+//@        (forall i int :: {sortedOf(expectedOutputDefinitions)[i]} 0 <= i && i < len(expectedOutputDefinitions) ==> sortedOf(expectedOutputDefinitions)[i] == sortedOf(loadedOutputDefinitions)[i]) ==> verr == nil
 //@ loop #1
 //@   invariant [sorted_copies] sortedExpectedOutputDefinitions == sortedOf(expectedOutputDefinitions) && sortedLoadedOutputDefinitions == sortedOf(loadedOutputDefinitions) && len(expectedOutputDefinitions) == len(loadedOutputDefinitions)
 //@   invariant [equal_so_far] forall i int :: {sortedOf(expectedOutputDefinitions)[i]} 0 <= i && i <= rangeindex ==> sortedOf(expectedOutputDefinitions)[i] == sortedOf(loadedOutputDefinitions)[i]
